@@ -23,6 +23,9 @@ type Faults struct {
 	FiredAt    string // which method/operation was failed
 	WriterOpen bool   // a writer had been handed out and not yet closed when the fault fired
 	writerOpen bool
+	// Jitter, when set, runs at every seam crossing (before the call goes through): the
+	// concurrency stream uses it to yield or sleep there
+	Jitter func(kind, what string)
 }
 
 func NewFaults() *Faults { return &Faults{Counts: map[string]int{}} }
@@ -35,6 +38,9 @@ func (f *Faults) Reset(kind string, k int) {
 }
 
 func (f *Faults) hit(kind, what string) error {
+	if f.Jitter != nil {
+		f.Jitter(kind, what)
+	}
 	f.mu.Lock()
 	defer f.mu.Unlock()
 	f.Counts[kind]++
